@@ -25,6 +25,9 @@ Proof.
          | |- context [lf_wrap_s 32 ?x] => rewrite (lf_wrap_s_32_small x) by (repeat destruct (_ >? _)%Z; lia)
          end.
   repeat match goal with
+         | |- context [(?x >? ?y)%Z] => destruct (x >? y)%Z eqn:?
+         end;
+  repeat match goal with
          | |- context [if ?t then _ else _] => destruct t eqn:?
          end; lia.
 Qed.
@@ -41,6 +44,9 @@ Proof.
   repeat match goal with
          | |- context [lf_wrap_s 32 ?x] => rewrite (lf_wrap_s_32_small x) by (repeat destruct (_ >? _)%Z; lia)
          end.
+  repeat match goal with
+         | |- context [(?x >? ?y)%Z] => destruct (x >? y)%Z eqn:?
+         end;
   repeat match goal with
          | |- context [if ?t then _ else _] => destruct t eqn:?
          end; lia.
